@@ -38,8 +38,9 @@ func (df *DataFrame) Loc(rowLabels []any, colLabels []string) (*DataFrame, error
 		row, _ := df.Row(i)
 		for _, label := range rowLabels {
 			if indexCol.Data[i] == label {
-				for _, col := range colLabels {
-					result.Columns[col].Data = append(result.Columns[col].Data, row[col])
+				// one cell per selected column, even if a label was listed twice
+				for name, col := range result.Columns {
+					col.Data = append(col.Data, row[name])
 				}
 			}
 		}
@@ -69,9 +70,9 @@ func (df *DataFrame) Iloc(rowIndices []int, colIndices []int) (*DataFrame, error
 			return nil, fmt.Errorf("row index out of bounds")
 		}
 		row, _ := df.Row(rowIdx)
-		for _, colIdx := range colIndices {
-			colName := colNames[colIdx]
-			result.Columns[colName].Data = append(result.Columns[colName].Data, row[colName])
+		// one cell per selected column, even if a position was listed twice
+		for name, col := range result.Columns {
+			col.Data = append(col.Data, row[name])
 		}
 	}
 
